@@ -36,6 +36,15 @@ def nshards(tier):
 
 
 def run_case(ctx, Model, case):
+    if 'write_mode' not in case:
+        # how the scripted model stores its outcome: in place, or through a whole-series write (deterministic in the case)
+        from .common import h64
+        case['write_mode'] = scripted.WRITE_MODES[h64(case) % len(scripted.WRITE_MODES)]
+    ctx.seen('write_modes', case['write_mode'])
+    if 'prior_record' not in case:
+        from .common import h64
+        k = h64(['prior', case]) % 8
+        case['prior_record'] = [['.', 5], ['F', 9], ['E', 2], ['S', 1]][k] if k < 4 else None
     n = case.get('n', 4)
     tn = case['t'] if case['t'] >= 0 else case['t'] + n
     start = dict(case['start'])
